@@ -1064,3 +1064,26 @@ theorem C16_once_guard_or_ignored_result_wait_forever :
     secondCall .once = .waitsForever ∧ secondCall .always = .ready ∧
     (waitCall .always true false false { st := .idle, requested := false }).1 = .waitsForever ∧
     (waitCall .always true true false { st := .idle, requested := false }).1 = .endsWithCtx := by decide
+
+/-! ## Close stores the closed state whatever the underlying grpc.ClientConn.Close answers (seeded C16-m11) -/
+
+open GB.C16.Conn in
+/-- Whatever the underlying `grpc.ClientConn.Close()` returns (nil, or an error because the client was already closed —
+    shared between two names, closed by its owner), after `AdaptedClientConn.Close` the pointer is `{nil, Unavailable}`
+    and every later `Stream` answers Unavailable; this holds from both well-formed pointer values (so also for a second
+    Close). -/
+theorem C16_close_always_marks_closed (underlyingErr : Bool) (p : PState) (h : p = PState.live ∨ p = PState.closed) :
+    closeRun .unconditional underlyingErr p = PState.closed ∧
+    streamAfterClose (closeRun .unconditional underlyingErr p) = .unavailable := by
+  rcases h with rfl | rfl <;> cases underlyingErr <;> decide
+
+open GB.C16.Conn in
+/-- negative witness (C16-m11): returning early on an error of the underlying Close leaves the adapter pointing at a
+    shut-down client — later Streams answer gRPC's closing error (Canceled), not Unavailable -/
+theorem C16_close_return_on_error_fails :
+    streamAfterClose (closeRun .returnOnError true PState.live) = .closingErr ∧
+    streamAfterClose (closeRun .returnOnError false PState.live) = .unavailable := by decide
+
+/-- facts tie: the body of the real `AdaptedClientConn.Close` has no return between the underlying Close and the Store,
+    and throws the result away -/
+theorem C16_facts_close_trace : GB.Generated.c16CloseTrace = GB.C16.Conn.expectedCloseTrace := by decide
